@@ -316,7 +316,24 @@ def gen_iso(draw, tier="quick"):
         "edges": edges,
         "estimator": draw(st.sampled_from(["matheron", "cressie"])),
         "flat_args": draw(st.booleans()),
+        # how the public wrapper is told about the missing values (the oracle always works on the NaN pattern)
+        "missing_as": draw(st.sampled_from(["nan", "masked_stack", "masked_list", "no_data"])),
     }
+
+
+def _encode_missing(fields, how):
+    """The same fields with their missing entries encoded as numpy masks (garbage underneath) or a no_data marker."""
+    f = np.array(fields, dtype=np.double)
+    miss = np.isnan(f)
+    if how == "no_data":
+        g = f.copy()
+        g[miss] = 12345.0
+        return [row.tolist() for row in g], {"no_data": 12345.0}
+    g = f.copy()
+    g[miss] = 777.0  # must never be read
+    if how == "masked_stack":
+        return np.ma.array(g, mask=miss), {}
+    return [np.ma.array(g[i], mask=miss[i]) for i in range(f.shape[0])], {}
 
 
 # ---------------------------------------------------------------------------
@@ -396,6 +413,14 @@ def check_iso(case, rec):
         "vario_estimate without return_counts differs from the call with counts",
         dict(tags, kind="return_counts"),
     )
+    how = case.get("missing_as", "nan")
+    if how != "nan" and _has_nan(case["fields"]):
+        enc, kw = _encode_missing(fields, how)
+        differing = len(fields) > 1 and len({tuple(np.isnan(r)) for r in np.array(fields, dtype=float)}) > 1
+        rec.label("missing_as_" + how + ("_differing" if differing else ""))
+        res3 = lib(gs.vario_estimate, pos, enc, edges, estimator=est, return_counts=True, _tags=dict(tags, missing_as=how), **kw)
+        msg, rel = _mismatch(res3[1], res3[2], o_v, o_c)
+        require(msg is None, f"vario_estimate with missing values given as {how}: {msg}", dict(tags, kind="mismatch", api="vario_estimate", missing_as=how))
     _nontrivial(rec, case, n, info, False)
 
 
